@@ -7,6 +7,16 @@ props = [json.loads(l) for l in open(os.path.join(VERIF, "properties.jsonl"))]
 TB = "TLC; the TLA+ modules under /verif/spec; the harness's observation code (interposed mmap/munmap/mprotect/__clear_cache, memory watch, child-process runner); Linux kernel behaviour"
 
 CLAIMED = {
+ "C04": ("model_checking", "MC_Lock: all interleavings of 3 threads x {injector, preventer} x {drop, panic} with Mutex / PrevSeesOrig / OwnFakes / FreeMeansOrig and hand-over liveness under weak fairness; TLC-generated schedules executed in lock-step on real threads (blocked actions must not complete, enabled ones must); free-running perturbed threads validated by TLC (Trace_Lock); the guard's state read at every OS call of install/drop (Trace_Api).", "5 C04",
+         "TLC exhaustive model check (safety+liveness) + lock-step schedule replay + trace validation"),
+ "C09": ("model_checking", "gate specification = structural equality of type records; MC_Sig checks over the generated family that text equality decides it; every ordered pair x every macro form is a real installation whose verdict, message class and untouched-on-refusal are validated by TLC (Trace_Sig).", "5 C09",
+         "TLC-checked gate specification + exhaustive pair execution validated by TLC"),
+ "C10": ("model_checking", "boolean gate specification (return type exactly bool) over a family of return types incl. ones ending in '-> bool'; real installations validated by TLC; stub bytes executed on X64.tla (ret with rax = value, only rax written) and compared with the CPU's answer at straddling / low / high placements.", "5 C10",
+         "TLC-checked gate specification + trace validation of gate verdicts and stub machine code"),
+ "C15": ("model_checking", "the repository's arm64 sources compiled on the host against a simulated memory; TLC decodes and executes the emitted entry/trampoline bytes on A64.tla: B / ADRP+ADD+BR reaches exactly the trampoline, MOVZ/MOVK x3 + BR builds exactly the fake address, only x9..x17 written, refused => entry untouched; chunk-exhaustive and edge-exhaustive case families.", "5 C15",
+         "trace validation of emitted machine code on a TLA+ ISA model (simulated architecture)"),
+ "C16": ("model_checking", "patch_arm.rs compiled on the host against a simulated memory; TLC executes the 12 entry bytes on A32T32.tla (PC+8 / Align(PC+4,4) literal addressing, BX interworking) for A32, T32@0mod4, T32@2mod4 x ARM/Thumb fakes: the loaded word is the fake incl. Thumb bit, saved range = written range, no callee-saved register written.", "5 C16",
+         "trace validation of emitted machine code on a TLA+ ISA model (simulated architecture)"),
  "C01": ("model_checking", "MC_Geom: every placement (function incl. page-straddling entries, trampoline page, fake) of a scaled address space executed on the model; on the real library a lattice of placements (rel32 boundary +/-6, window extremes, low/high addresses, page offsets 4084..4095) + seeded random is installed in child processes, and TLC executes the recorded entry/trampoline bytes on X64.tla (64-bit arithmetic on byte sequences) and compares with the CPU's answer.", "5 C01",
          "TLC model check of scaled geometry + trace validation of recorded machine code on an ISA model"),
  "C05": ("model_checking", "panic at every enabled point of the lifecycle model (user code, fake rejecting/over-called and not caught, refused installation, mmap exhaustion, mprotect failure, verifier at exit) with NoAbort / Reusable / IdleClean / Restored as invariants; every behaviour replayed with real panics and injected OS faults in child processes, chained over consecutive lifetimes, followed by a fresh thread; traces validated by TLC (Trace_Api, Props={C05}).", "5 C05",
